@@ -55,5 +55,14 @@ CHECKS["C15"] = dict(
     note=_TB + _KRY + "; well-scaled inputs (sub-diagonal >= tol/2) are assumed, the tiny-scale behaviour is a recorded finding; Householder variant outside",
     technique="concolic symbolic execution of the Python source on exact rational-function terms; z3 decides path feasibility, branch flips, "
               "assumption seeds and path-coverage completeness; float replay of every path seed")
-for _p in ["C04","C05","C06","C07","C09","C10","C11","C12","C13","C16","C17","C18","C19"]:
+CHECKS["C12"] = dict(
+    text="the real cg / run_batched_cg / while_loop_winfo / CG() / inv(A, CG()) executed on inputs built from the CG coefficients (A = Q T(alpha, rho) Q^T, "
+         "b = s q0; block-diagonal variants with independent coefficients per right-hand side; b = A x0 + s q0 for initial guesses; C^-T A~ C^-1 for "
+         "preconditioners): on every path (one per stopping index) the returned iterate equals the independent Krylov-optimal oracle "
+         "x0 + K (K^H A K)^-1 K^H r0 for all parameter values; steps <= max_iters, products with A == steps + 1, zero column -> exact zero, "
+         "linearity in b, exit <=> every column's recursive residual <= tol (1 + ||r0||/||b||) ||b|| proved by z3 from the path condition",
+    note=_TB + _KRY + "; parameters within [1e-6, 1e6] (the 1e-40 division guards are never triggered); coverage of the x0 cases is partial (sqrt generators)",
+    technique="concolic symbolic execution of the Python source on exact rational-function terms; z3 decides path feasibility, branch flips, the stopping-"
+              "contract inequalities and path-coverage completeness; float replay of every path seed")
+for _p in ["C04","C05","C06","C07","C09","C10","C11","C13","C16","C17","C18","C19"]:
     NA[_p] = "check under construction in this session (not yet registered); see DESIGN.md section 5 for the plan"
